@@ -1,0 +1,11 @@
+//go:build verif
+
+package mono
+
+import "time"
+
+// VerifSetAge pretends the process started `seconds` ago, so that Now()
+// returns about that value (piece ages beyond two hours become reachable).
+func VerifSetAge(seconds uint32) {
+	origin = time.Now().Add(-time.Duration(seconds) * time.Second)
+}
